@@ -117,7 +117,7 @@ prop('C10', 'exploration',
                       'transfer ops on a list that is currently being invoked are not generated (unspecified)'],
      q, t)
 
-q, t = std_stages('cbl', 2500, 100000)
+q, t = std_stages('cbl', 8000, 100000)
 prop('C19', 'exploration',
      'C02/C10 programs with nearWrap(k): the generation counter is placed k<=12 steps before its maximum through the guarded accessor, at top level or inside a callback; '
      'non-trivial = the wrap was observed with >=2 callbacks in the list, followed by >=2 invocations, with an add during an invocation after the wrap',
@@ -131,7 +131,7 @@ prop('C08', 'exploration',
      'non-trivial = a callback was removed while an invocation was running, or a list/queue was destroyed non-empty',
      COMMON_ASSUME, q, t)
 
-q, t = std_stages('queue', 2500, 150000, fuzz_runs=1000000)
+q, t = std_stages('queue', 8000, 150000, fuzz_runs=1000000)
 prop('C05', 'exploration',
      'rapidcheck-generated single-threaded EventQueue histories (<=80 ops): enqueue (lvalue/temporary), process, processOne, processIf, processUntil (scripted predicates, with and without '
      'arguments), peekEvent, takeEvent(+dispatch), clearEvents, emptyQueue, waitFor(0), DisableQueueNotify scopes, listener changes; listener and predicate scripts enqueue, change listeners and '
@@ -140,7 +140,7 @@ prop('C05', 'exploration',
      COMMON_ASSUME + ['nested consuming calls inside processIf/processUntil are not generated (the statement does not say whether declined events are visible to them)'],
      q, t)
 
-q, t = std_stages('queue', 2500, 100000)
+q, t = std_stages('queue', 8000, 100000)
 prop('C13', 'exploration',
      'C05 histories on OrderedQueueList queues with 4 comparators (ascending key, descending key, coarse key/2 with ties between distinct keys, comparator on an argument); model keeps pending '
      'stably sorted by (comparator class, enqueue sequence); non-trivial = a tie between events of different rounds, slot reuse, >=3 events consumed',
@@ -151,11 +151,11 @@ q, t = std_stages('disp', 2500, 100000, fuzz_runs=500000)
 q['stages'].append(dict(engine='rc', harness='disp', variant='gxx', procs=8, cases=1500, timeout=900))
 t['stages'].append(dict(engine='rc', harness='disp', variant='gxx', procs=16, cases=50000, timeout=3600))
 prop('C04', 'exploration',
-     'rapidcheck-generated EventDispatcher histories over 10 configurations (keys: int incl. INT_MIN/MAX, enum class, std::string incl. "", embedded NUL and non-SSO, user ordered key, user hashed key with '
-     'colliding hash; prototypes by value / by const reference / event excluded / getEvent policy; ArgumentPassing auto/include/exclude; unordered_map, std::map, user map) with dispatches whose arguments '
+     'rapidcheck-generated EventDispatcher histories over 12 configurations (keys: int incl. INT_MIN/MAX, enum class, std::string incl. "", embedded NUL and non-SSO, user ordered key, user hashed key with '
+     'colliding hash; prototypes by value / by const reference / event excluded / getEvent policy (also user getEvent policies taking their arguments by value, in the exclude and the include form); ArgumentPassing auto/include/exclude; unordered_map, std::map, user map) with dispatches whose arguments '
      'are lvalues or temporaries and listeners taking arguments by value (stealing them) or by reference; oracle = per-key list model + argument summaries + caller lvalues unchanged; '
      'non-trivial = >=2 keys with listeners, a dispatch with a temporary key whose first listener takes its arguments by value, >=2 listeners on that key',
-     COMMON_ASSUME + ['key/prototype universe is the 10-row configuration table', 'insert/remove through a handle of another event of the same dispatcher are not generated (documented UB)'],
+     COMMON_ASSUME + ['key/prototype universe is the 12-row configuration table', 'insert/remove through a handle of another event of the same dispatcher are not generated (documented UB)'],
      q, t)
 
 SCHED_ASSUME = COMMON_ASSUME + [
@@ -193,7 +193,7 @@ prop('C11', 'exploration',
      SCHED_ASSUME, q, t,
      technique='property-based testing: lock-step queue model (single thread) + generated thread programs x schedules under a controlled scheduler with an interval oracle')
 
-q, t = std_stages('remover', 3000, 150000)
+q, t = std_stages('remover', 8000, 150000)
 prop('C15', 'exploration',
      'rapidcheck-generated histories over a pool of 3 ScopedRemovers and 2 targets (CallbackList, EventDispatcher or EventQueue): add through a remover (append/prepend/insert), add directly, remove through a remover '
      '(own, foreign, direct, stale handles), remove directly, reset, setCallbackList/setDispatcher, move construction, move assignment into empty and non-empty removers, swap, destruction, invocation; '
@@ -203,10 +203,10 @@ prop('C15', 'exploration',
                       'remove through a remover is not generated for a listener in that limbo state or for a handle attached to a different target'],
      q, t)
 
-q, t = std_stages('remover', 3000, 150000)
+q, t = std_stages('remover', 10000, 150000)
 prop('C16', 'exploration',
      'rapidcheck-generated trigger histories on CallbackList, EventDispatcher, EventQueue (direct and queued dispatch), HeterCallbackList and HeterEventDispatcher with listeners added through counterRemover '
-     '(trigger counts INT_MIN,-5,-1,0,1,2,3,7,INT_MAX and random) and conditionalRemover (condition = bit sequence, with-argument and no-argument forms), plain listeners, removal from outside, and listener scripts '
+     '(trigger counts INT_MIN,-5,-1,0,1,2,3,7,INT_MAX and random) and conditionalRemover (condition = bit sequence, with-argument, no-argument and callable-both-ways forms; the last must be called with the arguments of the trigger), plain listeners, removal from outside, and listener scripts '
      'that re-trigger the same event re-entrantly; oracle = per wrapped listener trigger model on top of the nested-invocation list model; non-trivial = (count <=0 or >=2 with a re-entrant trigger, or a condition '
      'turning true on a nested trigger) with other listeners present',
      COMMON_ASSUME, q, t)
@@ -217,7 +217,7 @@ t['stages'].append(dict(engine='rc', harness='heter', variant='gxx', procs=16, c
 prop('C14', 'exploration',
      'rapidcheck-generated histories on HeterEventQueue (which contains the HeterEventDispatcher and HeterCallbackList paths) over three prototype lists chosen so that first-match order matters and payloads differ in '
      'size and triviality: <void(), void(int), void(const string&), void(const Big&)>, <void(long), void(int), void(Tracked,int)> (an int argument matches the first, void(int) is shadowed), and a std::string-keyed '
-     'include-event list; callables and arguments of every shape (exact, convertible, generic, shadowed), process/processOne/processIf with a predicate of each prototype and one callable with two; '
+     'include-event list; callables and arguments of every shape (exact, convertible, generic, shadowed), process/processOne/processIf with a predicate of each prototype and one callable with two; listeners that enqueue a further event each time they run (bounded), so that events arrive while a processing call runs; '
      'expected prototype indices are a hand-written table; oracle = per-prototype list models, argument summaries, exactly-once FIFO, processIf examines only its prototypes and leaves the rest in place; '
      'built with clang++ and g++; non-trivial = a processIf with an event of a foreign prototype pending, on a queue where a slot was recycled across prototypes',
      COMMON_ASSUME + ['prototype lists are the three rows of the table', 'which of the matching prototypes a multi-prototype predicate examines is left open (only "never a foreign one, never twice, dispatch iff true")'],
@@ -227,7 +227,7 @@ q, t = std_stages('anydata', 12000, 300000, enum=True)
 prop('C17', 'exploration',
      'type table P<N,kind>: N in {1,2,4,7,8,15,16,17,23,24,25,31,32,33,63,64,65,100,256} x kind in {trivial bytes, ledgered copy+move, ledgered move-only, shared_ptr holder} x AnyData capacities {1 (=16), 24, 32, 64}, '
      'so every capacity has N = M-1, M, M+1. Bounded-exhaustive: every (N, kind, capacity, construction form) with a fixed move/queue script (912 cases); random: generated chains of moves, reads and EventQueue round trips with '
-     'slots recycled between payloads of very different size. Oracle: value equality, stable address, conversions, isType true exactly for the stored type, <=1 move per hop, move-only never copied, use_count, ledger exactly-once, ASan/UBSan; '
+     'slots recycled between payloads of very different size. Oracle: value equality, stable address, conversions, isType true exactly for the stored type, <=1 move and no copy of the held object per AnyData move (the counted copyable type has a potentially-throwing move constructor, the shared_ptr holder a noexcept one), no copy when a temporary is enqueued, move-only never copied, use_count unchanged by a move, ledger exactly-once, ASan/UBSan; '
      'non-trivial = size within +-1 of the capacity or beyond it, a non-trivial kind, and >=2 moves or a queue round trip',
      COMMON_ASSUME + ['over-aligned types (alignment > 8) are outside the table', 'takeEvent/peekEvent are not generated: AnyData is not assignable, so QueuedEvent cannot be taken by value'],
      q, t)
